@@ -25,14 +25,17 @@ INV = [
     "uf_inv(uf)", "len(uf._parent) == n_nodes", "n_nodes >= 1",
     # every accepted edge is an edge of the input
     "forall(k, implies(0 <= k < len(mst_edges), exists(j, 0 <= j < len(edges) and mst_edges[k] == edges[j])), trig=mst_edges[k])",
-    "total_weight == wsum(mst_edges, len(mst_edges))",
+    "total_weight == wsum(mst_edges, len(mst_edges))", "-inf() < total_weight and total_weight < inf()",
+    "forall(k, implies(0 <= k < len(sorted_edges), -inf() < sorted_edges[k][2] and sorted_edges[k][2] < inf()), trig=sorted_edges[k])",
     # one edge per successful union: #edges + #components == n  (so the accepted edges form a forest)
     "len(mst_edges) + uf._count == n_nodes",
     "len(mst_edges) <= n_nodes - 1",
     "len(mst_edges) < n_nodes - 1 or n_nodes == 1",  # the loop is left as soon as n-1 edges are in
 ]
 REG.fn(M, "kruskal", prop="C13", ret="Result[opt[" + E + "]]", types={"mst_edges": E, "sorted_edges": E, "total_weight": "real"},
-       lemmas=["uf", "wsum"],
+       lemmas=["uf", "wsum"], strict_inf=True,
+       # finite weights: no arithmetic operator ever sees +-inf (proved under `strict_inf`)
+       requires=["forall(k, implies(0 <= k < len(edges), -inf() < edges[k][2] and edges[k][2] < inf()), trig=edges[k])"],
        ensures=[
            "result.status == 1 or result.status == 2 or result.status == 3",
            "implies(result.status != 3, not is_none(result.solution))",
@@ -57,7 +60,8 @@ OFFERED = "has(graph, {a}) and exists(i, 0 <= i < len(get(graph, {a})) and get(g
 PI = [
     "not is_none(start)", "has(in_mst, val(start))", "pos[val(start)] == 0",
     "card(in_mst) == len(mst_edges) + 1",
-    "total_weight == wsumN(mst_edges, len(mst_edges))",
+    "total_weight == wsumN(mst_edges, len(mst_edges))", "-inf() < total_weight and total_weight < inf()",
+    "forall(j, implies(0 <= j < len(heap), -inf() < heap[j][0] and heap[j][0] < inf()), trig=heap[j])",
     # ghost order of insertion: the k-th accepted edge attaches a NEW node (position k+1) to an OLD one (position <= k)
     "forall(x, implies(has(in_mst, x), 0 <= pos[x] <= len(mst_edges)), sorts={'x': 'U<Node>'}, trig=has(in_mst, x))",
     "forall(x, y, implies(has(in_mst, x) and has(in_mst, y) and pos[x] == pos[y], x == y), sorts={'x': 'U<Node>', 'y': 'U<Node>'}, trig=((has(in_mst, x), has(in_mst, y)),))",
@@ -68,10 +72,12 @@ PI = [
     "forall(j, implies(0 <= j < len(heap), has(in_mst, heap[j][2]) and " + OFFERED.format(a="heap[j][2]", b="heap[j][3]", w="heap[j][0]") + "), trig=heap[j])",
     "forall(x, implies(has(in_mst, x), has(nodes, x)), sorts={'x': 'U<Node>'}, trig=has(in_mst, x))",
 ]
-REG.fn(M, "prim", prop="C13", ret="Result[opt[" + PE + "]]", lemmas=["wsumN"],
+REG.fn(M, "prim", prop="C13", ret="Result[opt[" + PE + "]]", lemmas=["wsumN"], strict_inf=True,
        types={"graph": PG, "start": "opt[U<Node>]", "nodes": "set[U<Node>]", "in_mst": "set[U<Node>]", "mst_edges": PE,
               "heap": "list[tuple[real,int,U<Node>,U<Node>]]", "pos": "map[U<Node>,int]", "total_weight": "real"},
-       requires=["implies(not is_none(start), has(graph, val(start)))"],
+       requires=["implies(not is_none(start), has(graph, val(start)))",
+                 # finite weights: no arithmetic operator ever sees +-inf (proved under `strict_inf`)
+                 "forall(u, i, implies(has(graph, u) and 0 <= i < len(get(graph, u)), -inf() < get(graph, u)[i][1] and get(graph, u)[i][1] < inf()), sorts={'u': 'U<Node>'}, trig=get(graph, u)[i])"],
        ghost_before=[("in_mst: set[Node] = {start}", "pos", "lam(x, 0, sort='U<Node>')")],
        ghost_after=[("in_mst.add(v)", "pos", "store(pos, v, len(mst_edges) + 1)")],
        ensures=[
